@@ -16,26 +16,32 @@
 (* table version, entry i describes symbol i of the linked symbol table).   *)
 (*                                                                         *)
 (* The environment is an abstract writer: it chooses class, byte order and  *)
-(* section kind, appends symbols to an abstract table (AddSymbol), then     *)
-(* hashes it (Hash: the symbols from symoffset on are sorted by GNU bucket  *)
-(* as the GNU format requires, the canonical GNU and SysV tables are built  *)
-(* over the result and everything is serialised).  From there a reader      *)
-(* process - the byte-level machines of HashWalk.tla, one action per loop   *)
-(* iteration (GnuBloomTest, GnuBucket, GnuChainStep, SysVBucket,            *)
-(* SysVChainStep, GnuCountMax, GnuCountWalk) - is started for every query   *)
-(* name, present or absent.                                                *)
+(* section kind, appends symbols to an abstract table (AddSymbol), then      *)
+(* chooses nbucket(s) and symoffset (Sort: the symbols from symoffset on -   *)
+(* the hashed part - are grouped by GNU bucket as the GNU format requires,   *)
+(* symbol and string tables are serialised, the canonical SysV table is      *)
+(* built over the result) and a bloom geometry (BuildGnuTable: the           *)
+(* canonical GNU table).  A reader process - the byte-level machines of      *)
+(* HashWalk.tla, one action per loop iteration (SysVBucket, SysVChainStep    *)
+(* on the sorted table; GnuBloomTest, GnuBucket, GnuChainStep, GnuCountMax,  *)
+(* GnuCountWalk once the GNU table exists) - is started for every query      *)
+(* name, present or absent, and for the count.  A second mode ("fields")     *)
+(* starts from one long table that sweeps every entry field.                 *)
 (*                                                                         *)
 (* TLC checks on the specification itself, for every table in the bounds    *)
 (* and every query name: LookupSound, LookupComplete, GnuFindsFirst,        *)
-(* CountExact, NoFault / ChainInBounds / ChainProgress (the readers stay    *)
-(* inside the sections and terminate), RunAgrees (the action-level machine  *)
-(* equals the operator form used for emission and for trace validation),    *)
-(* TableWellFormed (bucket sortedness, one chain end per bucket, SysV       *)
-(* chains partition the hashed part, section sizes), NamesResolve (every    *)
-(* st_name resolves to the symbol's name by the declarative C-string        *)
+(* CountExact, CountDetermined, NoFault / ChainInBounds / ChainProgress     *)
+(* (the readers stay inside the sections and terminate), RunAgrees (the     *)
+(* action-level machine equals the operator form used for emission and for  *)
+(* trace validation), GnuWellFormed (header, section size, hashed part      *)
+(* grouped by ascending bucket, chain word = hash but for bit 0 = last of   *)
+(* its bucket, bucket word = lowest index or 0), SysVWellFormed (header,     *)
+(* sizes, the chains partition the hashed part, one chain end per populated  *)
+(* bucket), NamesResolve (every st_name resolves to exactly the symbol's     *)
+(* name, by the operational byte comparison and by the declarative C-string  *)
 (* reading), SymRoundTrip (decoding the entry bytes at index * sh_entsize    *)
-(* gives the abstract entry back, ST_INFO(bind, type) recomposes st_info,   *)
-(* the companion word is 0 exactly off SHN_XINDEX).                        *)
+(* gives the abstract entry back, ST_INFO(bind, type) recomposes st_info,    *)
+(* the companion word is 0 off SHN_XINDEX, ByName partitions the indices).   *)
 (*                                                                         *)
 (* Every hashed table is emitted (spec-selected subset, see Selected) with  *)
 (* its ELF image (Elf!Chunks) and the declarative view: entries in index    *)
@@ -51,7 +57,13 @@
 (*  - nbuckets = 0, bloom_size = 0, shift >= 32 (ill-formed);               *)
 (*  - names where figure 5-13's `unsigned long` arithmetic leaves 32 bits;  *)
 (*  - the names STB_NUM / STT_NUM / STT_RELC / STT_SRELC (not code names of *)
-(*    the gABI nor of the vendored registry).                               *)
+(*    the gABI nor of the vendored registry);                               *)
+(*  - which of several hashed symbols bearing the queried name is returned  *)
+(*    (the property asks for "a symbol with the requested name").           *)
+(* st_other: visibility is the low 2 bits by the gABI, the low 3 bits by    *)
+(* Solaris - a reader may use either; every other bit is processor specific *)
+(* ("other bits" of the property: PPC64 ELFv2 bits 5-7, MIPS 0x08 .. 0xf0,  *)
+(* AArch64 / RISC-V 0x80) and must be recoverable from the reported entry.  *)
 (* Name tables below are literals from the gABI figures (Solaris codes from *)
 (* the Linker and Libraries Guide); the driver adds the vendored registry's *)
 (* names of the same code (OS / processor specific aliases).                *)
@@ -64,6 +76,7 @@ CONSTANTS Modes,         \* subset of {"lookup", "fields"}
           LastIds,       \* ... of which the last position of a table of MaxSyms symbols may take
           NBuckets,      \* nbucket (SysV) = nbuckets (GNU)
           Blooms,        \* <<bloom size in words, shift>> pairs
+          FieldN,        \* symbols after the null entry (fields mode)
           EmitMod, AlwaysLen   \* emission: every table of <= AlwaysLen entries, of the longer ones one in EmitMod
 
 VARIABLES mode, cf, tab, phase, hp, mem, rd
@@ -102,24 +115,27 @@ Shn == << <<0, Z>>, <<1, Z>>, <<65279, Z>>, <<65280, Z>>, <<65281, Z>>, <<65311,
           <<65521, Z>>, <<65522, Z>>, <<65535, N(65536)>>, <<65535, W(<<240, 255, 255, 255>>)>>, <<65535, N(65280)>> >>
 Bts == <<0, 1, 65280, 65532, 65533, 65534, 65535>>
 FSym(i, c) == LET sx == Shn[(i % Len(Shn)) + 1] IN
-  Sym((i % 6) + 1, Vals(c)[(i % Len(Vals(c))) + 1], Sizes(c)[(i % Len(Sizes(c))) + 1], i - 1, ((i - 1) * 7 + 3) % 256,
+  Sym((i % 6) + 1, Vals(c)[(i % Len(Vals(c))) + 1], Sizes(c)[(i % Len(Sizes(c))) + 1], (i - 1) % 256, ((i - 1) * 7 + 3 + ((i - 1) \div 256)) % 256,
       sx[1], sx[2], Bts[(i % Len(Bts)) + 1], (i * 5) % 64)
-FieldsTab(c) == <<NullSym>> \o [i \in 1..256 |-> FSym(i, c)]        \* st_info and st_other take every value once
+FieldsTab(c) == <<NullSym>> \o [i \in 1..FieldN |-> FSym(i, c)]     \* FieldN >= 256: st_info and st_other take every value
 
 (* ---------------------------- string table ----------------------------- *)
 Present(t) == {t[i].nm : i \in 1..Len(t)}
 StrIds(t) == LET InTable(k) == k \in Present(t) /\ ~(k = 3 /\ 4 \in Present(t))      \* "b" is the tail of "ab"
              IN SelectSeq(IF Len(t) % 2 = 0 THEN <<6, 5, 4, 3, 2>> ELSE <<2, 3, 4, 5, 6>>, InTable)
 StrBytes(t) == LET ids == StrIds(t) IN <<0>> \o Flat([k \in 1..Len(ids) |-> NameSeq[ids[k]] \o <<0>>])
-\* st_name of symbol index i bearing name id: the empty name is offset 0 for the null entry and the
-\* offset of the table's last NUL otherwise
-NameOffset(t, id, i) ==
+\* st_name by name id: "b" is the tail of "ab" when both are present; the empty name is the table's last
+\* NUL (the null entry, index 0, uses offset 0)
+StrOffsets(t) ==
   LET ids == StrIds(t)
       offs == NameOffs([k \in 1..Len(ids) |-> NameSeq[ids[k]]], 1)
       OffOf(x) == offs[CHOOSE k \in 1..Len(ids) : ids[k] = x]
-  IN IF id = 1 THEN (IF i = 0 THEN 0 ELSE Len(StrBytes(t)) - 1)
-     ELSE IF id = 3 /\ 4 \in Present(t) THEN OffOf(4) + 1
-     ELSE OffOf(id)
+      pres == Present(t)
+      last == Len(StrBytes(t)) - 1
+  IN TLCEval([id \in AllIds |-> IF id = 1 THEN last
+                                ELSE IF id \notin pres THEN 0
+                                ELSE IF id = 3 /\ 4 \in pres THEN OffOf(4) + 1 ELSE OffOf(id)])
+NameOffset(so, id, i) == IF id = 1 /\ i = 0 THEN 0 ELSE so[id]
 
 (* ------------------------------ encodings ------------------------------ *)
 \* concatenation of f[i..j], splitting the range in halves (tables of hundreds of entries)
@@ -130,8 +146,8 @@ EntSize(c, extra) == SizeOf(SymF(c), c) + extra
 SymRec(s, off) == [st_name |-> N(off), st_value |-> s.value, st_size |-> s.size, st_info |-> N(s.info),
                    st_other |-> N(s.other), st_shndx |-> N(s.shndx)]
 EncSyms(t, c, le, extra) ==
-  LET offs == TLCEval([i \in 1..Len(t) |-> NameOffset(t, t[i].nm, i - 1)]) IN
-  CatAll([i \in 1..Len(t) |-> Ser(SymF(c), SymRec(t[i], offs[i]), c, le) \o Rep(165, extra)], Len(t))
+  LET so == StrOffsets(t) IN
+  CatAll([i \in 1..Len(t) |-> Ser(SymF(c), SymRec(t[i], NameOffset(so, t[i].nm, i - 1)), c, le) \o Rep(165, extra)], Len(t))
 EncShndx(t, le) == CatAll([i \in 1..Len(t) |-> Fix(t[i].xs, 4, le)], Len(t))
 EncSyminfo(t, le) == CatAll([i \in 1..Len(t) |-> Fix(N(t[i].bt), 2, le) \o Fix(N(t[i].fl), 2, le)], Len(t))
 
@@ -200,7 +216,7 @@ Idle == [kind |-> "idle", q |-> 0, st |-> RS("idle", 0, -1, FALSE, 0)]
 FieldCfs == {Cf(cl, "dynsym", 0, FALSE) : cl \in ClsLe} \cup {Cf(cl, "symtab", 8, TRUE) : cl \in ClsLe}
             \cup {Cf(cl, "ldynsym", 0, FALSE) : cl \in {<<32, FALSE>>, <<64, TRUE>>}}
 \* fields mode: <<nbucket(s), symoffset, bloom size, shift>>
-FieldParams == {<<7, 1, 2, 6>>, <<16, 200, 1, 31>>}
+FieldParams == {<<7, 1, 2, 6>>, <<16, (FieldN * 3) \div 4, 1, 31>>}
 
 Init ==
   /\ mode \in Modes
@@ -417,14 +433,17 @@ SysVWellFormed ==
     /\ Len(mem.v) = 8 + 4 * hp.nb + 4 * N0
     /\ Len(mem.sym) = N0 * mem.ent
     \* the chains partition the hashed part - every hashed index is reached from exactly its bucket
-    /\ \A i \in hp.so..(N0 - 1) : i \in VChain(WNum(Rd4(mem.v, 8 + 4 * WMod(EH[tab[i + 1].nm], hp.nb), cf.le)), N0)
+    /\ LET chains == TLCEval([b \in 1..hp.nb |-> VChain(WNum(Rd4(mem.v, 8 + 4 * (b - 1), cf.le)), N0)]) IN
+       /\ \A i \in hp.so..(N0 - 1) : i \in chains[WMod(EH[tab[i + 1].nm], hp.nb) + 1]
+       /\ \A b \in 1..hp.nb : \A i \in chains[b] : i >= hp.so /\ WMod(EH[tab[i + 1].nm], hp.nb) = b - 1
     /\ \A i \in 0..(N0 - 1) : i < hp.so => WNum(Rd4(mem.v, 8 + 4 * hp.nb + 4 * i, cf.le)) = 0
     /\ Cardinality({i \in 0..(N0 - 1) : WNum(Rd4(mem.v, 8 + 4 * hp.nb + 4 * i, cf.le)) = 0 /\ i >= hp.so})
          = Cardinality({b \in 0..(hp.nb - 1) : WNum(Rd4(mem.v, 8 + 4 * b, cf.le)) # 0})           \* one chain end per populated bucket
 \* every st_name resolves to the symbol's name (operational byte comparison = declarative C string)
 NamesResolve ==
-  Serialised => \A i \in 0..(N0 - 1) :
-                 LET nm == NameSeq[tab[i + 1].nm]   off == NameOffset(tab, tab[i + 1].nm, i) IN
+  Serialised => LET so == StrOffsets(tab) IN
+                \A i \in 0..(N0 - 1) :
+                 LET nm == NameSeq[tab[i + 1].nm]   off == NameOffset(so, tab[i + 1].nm, i) IN
                  /\ NameIs(MG, i, nm)
                  /\ CStrAt(mem.str, off).ok /\ CStrAt(mem.str, off).s = nm
                  /\ \A k \in AllIds : NameIs(MG, i, NameSeq[k]) <=> k = tab[i + 1].nm
@@ -433,9 +452,9 @@ RECURSIVE FieldOff(_, _, _)
 FieldOff(F, c, k) == IF k = 1 THEN 0 ELSE FieldOff(F, c, k - 1) + Width(F[k - 1][2], c)
 DeField(F, bs, off, c, le, k) == LET w == Width(F[k][2], c)   raw == Slice(bs, off + FieldOff(F, c, k) + 1, w) IN IF le THEN raw ELSE Rev(raw)
 SymRoundTrip ==
-  Serialised => LET F == SymF(cf.cls) IN
+  Serialised => LET F == SymF(cf.cls)   so == StrOffsets(tab) IN
               /\ \A i \in 0..(N0 - 1) :
-                   LET s == tab[i + 1]   rec == SymRec(s, NameOffset(tab, s.nm, i)) IN
+                   LET s == tab[i + 1]   rec == SymRec(s, NameOffset(so, s.nm, i)) IN
                    /\ \A k \in 1..Len(F) : DeField(F, mem.sym, i * mem.ent, cf.cls, cf.le, k) = Digits(rec[F[k][1]], Width(F[k][2], cf.cls))
                    /\ (s.info \div 16) * 16 + (s.info % 16) = s.info /\ s.info \div 16 < 16           \* ELF32_ST_INFO(b, t) = (b << 4) + (t & 0xf)
                    /\ (s.shndx # 65535 => s.xs = Z)                                                   \* companion word 0 off SHN_XINDEX
